@@ -1,0 +1,76 @@
+//! Verification probes. Only compiled with `--cfg varlink_rust_verif`.
+//!
+//! Add-only instrumentation used by the model-checking harness in /verif: a
+//! process-global probe callback that may block the calling thread (that is how
+//! the controlled scheduler parks threads), and an accept override that lets
+//! the harness answer `Listener::accept` with a timeout or an in-memory stream.
+
+use std::sync::{Arc, RwLock};
+use std::thread::ThreadId;
+
+use crate::error::Result;
+use crate::stream::Stream;
+
+/// Program points at which the instrumented code reports to the harness.
+#[derive(Debug, Clone, PartialEq, Eq, Hash)]
+pub enum Point {
+    /// `ThreadPool::new`: a worker thread has just been spawned.
+    PoolSpawned,
+    /// `ThreadPool::execute`: about to enqueue a job.
+    ExecBeforeSend,
+    /// `ThreadPool::execute`: job enqueued, about to read the busy counter.
+    ExecBeforeBusyRead,
+    /// `ThreadPool::execute`: an additional worker has just been spawned.
+    ExecAfterSpawn,
+    /// worker: top of the loop, about to lock the receiver and dequeue.
+    WorkerLoopTop,
+    /// worker: a job was dequeued.
+    WorkerDequeued,
+    /// worker: busy counter has been incremented.
+    WorkerBusyInc,
+    /// worker: the job returned.
+    WorkerJobDone,
+    /// worker: busy counter has been decremented.
+    WorkerBusyDec,
+    /// worker: terminate message received, thread is about to exit.
+    WorkerTerminate,
+    /// `ThreadPool::drop`: about to send one terminate message.
+    DropBeforeTerminate,
+    /// `ThreadPool::drop`: about to join the given worker thread.
+    DropBeforeJoin(ThreadId),
+    /// client `MethodCall`: about to take the connection write lock.
+    ClientWantLock,
+}
+
+type Hook = Arc<dyn Fn(Point) + Send + Sync>;
+type AcceptHook = Arc<dyn Fn(u64) -> Option<Result<Box<dyn Stream>>> + Send + Sync>;
+
+static HOOK: RwLock<Option<Hook>> = RwLock::new(None);
+static ACCEPT_HOOK: RwLock<Option<AcceptHook>> = RwLock::new(None);
+
+/// Install (or remove) the process-global probe callback.
+pub fn set_hook(h: Option<Hook>) {
+    *HOOK.write().unwrap() = h;
+}
+
+/// Install (or remove) the process-global accept override.
+pub fn set_accept_hook(h: Option<AcceptHook>) {
+    *ACCEPT_HOOK.write().unwrap() = h;
+}
+
+/// Report a program point; the callback may block.
+pub fn probe(p: Point) {
+    let h = HOOK.read().unwrap().clone();
+    if let Some(h) = h {
+        h(p);
+    }
+}
+
+/// Ask the accept override, if any, for the result of `Listener::accept`.
+pub fn accept(timeout: u64) -> Option<Result<Box<dyn Stream>>> {
+    let h = ACCEPT_HOOK.read().unwrap().clone();
+    match h {
+        Some(h) => h(timeout),
+        None => None,
+    }
+}
